@@ -170,11 +170,37 @@ impl<P: Protocol> RemoteLink<P> {
                         }
 
                     }
-                    self.network.writev(packets).await?;
+                    if let Err(e) = self.network.writev(packets).await {
+                        // The peer does not take our data any more. What it had sent before
+                        // it went away was not read while the write was pending: hand it to
+                        // the router first (a DISCONNECT among it means that the connection
+                        // ended cleanly and the will must not be published).
+                        self.forward_received().await;
+                        return Err(e.into());
+                    }
                     if unscheduled {
                         self.link_rx.wake().await?;
                     }
                 }
+            }
+        }
+    }
+}
+
+impl<P: Protocol> RemoteLink<P> {
+    /// Hands the packets that are already readable on the connection to the router, without
+    /// waiting for more
+    async fn forward_received(&mut self) {
+        while let Ok(Ok(packet)) = time::timeout(Duration::ZERO, self.network.read()).await {
+            {
+                let mut buffer = self.link_tx.buffer();
+                buffer.push_back(packet);
+                if self.network.readv(&mut buffer).is_err() {
+                    break;
+                }
+            }
+            if self.link_tx.notify().await.is_err() {
+                break;
             }
         }
     }
